@@ -34,8 +34,8 @@ SuccFn(g) == [s \in States(g) |-> Succ(g, s)]
 RECURSIVE PosClose(_, _)
 PosClose(g, X) ==
     LET Y == X \cup {s \in States(g) \ X :
-                       IF g.owner[s] = P2 THEN Succ(g, s) # {} /\ Succ(g, s) \subseteq X
-                       ELSE Succ(g, s) \cap X # {}}
+                       IF g.owner[s] = P2 THEN SuccP(g, s) # {} /\ SuccP(g, s) \subseteq X
+                       ELSE SuccP(g, s) \cap X # {}}
     IN  IF Y = X THEN X ELSE PosClose(g, Y)
 PosSet(g)  == PosClose(g, FinalSet(g))
 ZeroSet(g) == States(g) \ PosSet(g)
